@@ -62,7 +62,7 @@ class DynamicFields:
         super().__setattr__(name, value)
       if name in data:
         self._set_existing_field(name, value)
-      if (name in self.__class__.PREDEFINED_TAGS or
+      elif (name in self.__class__.PREDEFINED_TAGS or
             self._is_valid_custom_tagname(name)):
         self.set(name, value)
       else:
